@@ -456,6 +456,75 @@ def check(spec):
                 c.join(5)
 
 
+class KeyedBase(torch.utils.data.Dataset):
+    """a map-style dataset addressed by arbitrary hashable keys (torch allows that): the key decides the sample"""
+
+    def __init__(self, keys):
+        self.keys, self.loads = list(keys), []
+
+    def __len__(self):
+        return len(self.keys)
+
+    def __getitem__(self, k):
+        if k not in self.keys:
+            raise KeyError(k)
+        self.loads.append(k)
+        return ("sample-of", k)
+
+
+def _key(spec):
+    t, v = spec
+    return {"int": int, "float": float, "str": str, "tuple": tuple, "bool": bool}[t](v)
+
+
+def check_keyed(spec):
+    """the cache is keyed by what the caller asks for: keys that are not integers (fractions, strings, tuples) address their own
+    samples, each loaded at most once between clears"""
+    from kappadata.caching import SharedDictDataset
+    keys = []
+    for ks in spec["keys"]:
+        k = _key(ks)
+        if not any(k == q and type(k) is type(q) for q in keys) and not any(k == q for q in keys):
+            keys.append(k)  # keys that compare equal (1 / 1.0 / True) are one key for any dict: one representative only
+    base = KeyedBase(keys)
+    children_before = {c.pid for c in mp.active_children()}
+    sd = SharedDictDataset(base)
+    try:
+        cached, n_acc = set(), 0
+        for a in spec["ops"]:
+            if a == "clear":
+                sd.dispose()
+                cached = set()
+                continue
+            k = keys[a % len(keys)]
+            before = len(base.loads)
+            got = sd[k]
+            n_acc += 1
+            if got != ("sample-of", k) or type(got[1]) is not type(k):
+                raise Violation("keyed:observation-differs-from-wrapped-dataset", f"cached[{k!r}] = {got!r}, wrapped[{k!r}] = {('sample-of', k)!r}")
+            d = len(base.loads) - before
+            if (k in cached and d != 0) or (k not in cached and d != 1):
+                raise Violation("keyed:load-count", f"key {k!r}: {d} loads, {'cached before' if k in cached else 'not cached before'}")
+            cached.add(k)
+        kinds = {type(k).__name__ for k in keys}
+        return Case(len(kinds) >= 2 and n_acc >= 2, sorted(kinds), max(1, n_acc))
+    finally:
+        del sd
+        import gc
+        gc.collect()
+        for c in mp.active_children():
+            if c.pid not in children_before:
+                c.terminate()
+                c.join(5)
+
+
+KEYS = st.lists(st.one_of(st.tuples(st.just("int"), st.integers(-3, 6)), st.tuples(st.just("float"), st.sampled_from([0.25, 0.5, 0.75, 1.5, 2.5, -0.5])),
+                          st.tuples(st.just("str"), st.sampled_from(["a", "b", "0", "1", "frame_1"])),
+                          st.tuples(st.just("tuple"), st.lists(st.integers(0, 2), min_size=1, max_size=2))), min_size=1, max_size=6)
+KEYED = st.fixed_dictionaries({"keys": KEYS, "ops": st.lists(st.one_of(st.integers(0, 30), st.integers(0, 30), st.integers(0, 30), st.just("clear")),
+                                                              min_size=1, max_size=10)})
+
+
 @st.composite
 def op(draw, tier):
     k = draw(st.sampled_from(["get", "get", "get", "many", "clear", "oob", "iterate", "copy", "pread", "loader", "tget", "tget", "tclear", "retransform"] + (["readers"] if tier == "thorough" else ["readers"] * 0)))
@@ -493,6 +562,8 @@ def spec_s(draw, tier, with_readers):
 
 
 FACETS = [
+    Facet("keyed-datasets", guarded("cache", check_keyed), strategy=lambda tier: KEYED, budget={"quick": 60, "thorough": 400},
+          shards={"quick": 2, "thorough": 4}, min_nontrivial={"quick": 10, "thorough": 60}, case_timeout=60),
     Facet("sequential-histories", guarded("cache", check), strategy=lambda tier: spec_s(tier, False), budget={"quick": 1200, "thorough": 3000},
           shards={"quick": 10, "thorough": 16}, min_nontrivial={"quick": 100, "thorough": 1000}, case_timeout=120),
     Facet("concurrent-readers", guarded("cache", check), strategy=lambda tier: spec_s(tier, True), budget={"quick": 120, "thorough": 800},
